@@ -76,7 +76,7 @@ type Engine struct {
 	Assumes       map[string]int
 	OverflowPaths int
 	Harness       string
-	TraceOut    map[string][]string // selftest: the trace of each finished path
+	TraceOut      map[string][]string // selftest: the trace of each finished path
 	cexCount      map[string]int
 	PrecByLabel   map[string]int
 	Samples       []string
@@ -206,8 +206,8 @@ func newFrame(fn *ssa.Function, dest ssa.Value) *Frame {
 
 // Worker explores paths with its own solver.
 type Worker struct {
-	E *Engine
-	S *Solver
+	E           *Engine
+	S           *Solver
 	pendingUser *StructV
 	curState    *State
 }
@@ -425,6 +425,10 @@ func (w *Worker) onGoPanic(s *State, msg string) PathEnd {
 		// the path is feasible (every branch was checked): a panic is a violation
 		w.recordAssert(s, "panic", "false", full)
 		return PathEnd{"panic", full}
+	}
+	// paths are kept on abstract feasibility: a panic only counts if the path really exists
+	if r, _ := w.S.Check(s.Decls, s.PC, nil, nil); r == "unsat" {
+		return PathEnd{"infeasible", ""}
 	}
 	// panic unwinding (deferred calls, recover) is not executed: without zz.NoPanic the rest of
 	// such a path is unexplored, which is reported rather than dropped
